@@ -126,18 +126,26 @@ def rule_u2(repo):
 
 def rule_u3(repo):
     res = RuleResult('C08.U3', 'a variable gets one type: a freshly invented type is recorded for later occurrences', floor=2)
-    f = repo.func(INFER, 'type_infer.<locals>.infer')
-    cfg = cfg_of(f.node)
+    from ..inline import inlined
     top = repo.func(INFER, 'type_infer')
+    f = repo.func(INFER, 'type_infer.<locals>.infer')
+    # a step of the variable cases that was moved into a helper beside `infer` is read in place (not the unification machinery)
+    f = inlined(f, lambda h: h.parent is not None and h.name not in ('new_type', 'union', 'unify', f.name) and
+                any(isinstance(c, ast.Call) and call_name(c) == 'new_type' for c in ast.walk(h.node)))[0]
+    cfg = cfg_of(f.node)
+    iflow = flow_of(f.node)
 
     def discipline(cfg, region, table, subj):
-        fresh = [n for n in cfg.stmt_nodes(ast.Assign) if n.id in region and isinstance(n.ast.value, ast.Call) and
-                 call_name(n.ast.value) == 'new_type' and any(path_of(t) == subj + '.T' for t in n.ast.targets)]
+        # the fresh type may first go to a local (T = new_type(); table[name] = T; t.T = T)
+        fresh = [n for n in cfg.stmt_nodes(ast.Assign) if n.id in region and isinstance(n.ast.value, ast.Call) and call_name(n.ast.value) == 'new_type']
+        holders = {src(t) for n in fresh for t in n.ast.targets} | {subj + '.T'}
+        def key_ok(sl):
+            return path_of(sl) == subj + '.name' or path_of(iflow.inline(sl)) == subj + '.name'
         records = [n for n in cfg.stmt_nodes(ast.Assign) if n.id in region and any(
-            isinstance(t, ast.Subscript) and is_name(t.value, table) and path_of(t.slice) == subj + '.name' for t in n.ast.targets) and
-            path_of(n.ast.value) == subj + '.T']
-        lookups = [n for n in cfg.stmt_nodes(ast.Assign) if n.id in region and isinstance(n.ast.value, ast.Subscript) and
-                   is_name(n.ast.value.value, table) and any(path_of(t) == subj + '.T' for t in n.ast.targets)]
+            isinstance(t, ast.Subscript) and is_name(t.value, table) and key_ok(t.slice) for t in n.ast.targets) and src(n.ast.value) in holders]
+        lookups = [n for n in cfg.nodes if n.id in region and n.ast is not None and n.kind in ('stmt', 'return') and any(
+            isinstance(x, ast.Subscript) and isinstance(x.ctx, ast.Load) and is_name(x.value, table) and key_ok(x.slice)
+            for h in cfg.headers(n) for x in ast.walk(h))]
         if not fresh:
             return None
         return bool(records) and bool(lookups) and all(
